@@ -70,6 +70,7 @@ private theorem tok_table : ∀ n, n < 256 → ∀ bit : Bool,
       Sipsp.tokAllowedChar (UInt8.ofNat n) (if bit then 64 else 0) := by
   decide +kernel
 
+-- TIE: tokAllowedChar
 /-- `tokAllowedChar` (parse_params.go) as translated from the source = the model's function, for every byte and every
     64-bit option word. -/
 theorem tokAllowedChar_tie (c : UInt8) (flags : UInt64) :
@@ -84,6 +85,7 @@ private theorem res_table : ∀ n, n < 256 →
     (Gen.F.resCharSigFlag (UInt8.ofNat n)).toNat = Sipsp.resCharSigFlag (UInt8.ofNat n) := by
   decide +kernel
 
+-- TIE: resCharSigFlag
 /-- `resCharSigFlag` (msg_sig.go), every byte -/
 theorem resCharSigFlag_tie (c : UInt8) : (Gen.F.resCharSigFlag c).toNat = Sipsp.resCharSigFlag c :=
   u8_cases (fun c => (Gen.F.resCharSigFlag c).toNat = Sipsp.resCharSigFlag c) res_table c
@@ -106,6 +108,7 @@ private theorem mv_big (h : UInt16) (hb : h.toNat ≥ 256) :
       have := hall _ hm; omega
   rw [this]; rfl
 
+-- TIE: multipleValsOk
 /-- `multipleValsOk` (parse_from.go): every 16-bit header type -/
 theorem multipleValsOk_tie (h : UInt16) : Gen.F.multipleValsOk h = Sipsp.multipleValsOk h.toNat := by
   by_cases hb : h.toNat ≥ 256
@@ -129,6 +132,7 @@ private theorem natcast_pos (n : Nat) : decide ((n : Int) > 0) = decide (n > 0) 
   · have : ¬ (n : Int) > 0 := by omega
     simp [h, this]
 
+-- TIE: PField.Empty
 /-- `PField.Empty` (parse_types.go) -/
 theorem pfieldEmpty_tie (l : UInt16) : Gen.F.PField_Empty l = ({ offs := 0, len := l.toNat } : PField).isEmpty := by
   unfold Gen.F.PField_Empty PField.isEmpty
@@ -140,13 +144,19 @@ theorem pfieldEmpty_tie (l : UInt16) : Gen.F.PField_Empty l = ({ offs := 0, len 
     have e2 : (l.toNat == 0) = false := beq_false_of_ne h2
     rw [e1]; exact e2.symm
 
+-- TIE: PContacts.Empty
 /-- the `N == 0` / `N > 0` predicates of the value lists (parse_contact.go, parse_pai.go, parse_uri_*.go) -/
 theorem contactsEmpty_tie (c : PContacts) : Gen.F.PContacts_Empty (Int.ofNat c.n) = c.isEmpty := natcast_beq0 c.n
+-- TIE: PContacts.Parsed
 theorem contactsParsed_tie (c : PContacts) : Gen.F.PContacts_Parsed (Int.ofNat c.n) = c.parsed := natcast_pos c.n
+-- TIE: PPAIs.Empty
 theorem paisEmpty_tie (c : PPAIs) : Gen.F.PPAIs_Empty (Int.ofNat c.n) = c.isEmpty := natcast_beq0 c.n
+-- TIE: PPAIs.Parsed
 theorem paisParsed_tie (c : PPAIs) : Gen.F.PPAIs_Parsed (Int.ofNat c.n) = c.parsed := natcast_pos c.n
+-- TIE: URIParamsLst.Empty
 theorem uriParamsEmpty_tie (l : URIParamsLst) : Gen.F.URIParamsLst_Empty (Int.ofNat l.n) = l.isEmpty :=
   natcast_beq0 l.n
+-- TIE: URIHdrsLst.Empty
 theorem uriHdrsEmpty_tie (l : URIHdrsLst) : Gen.F.URIHdrsLst_Empty (Int.ofNat l.n) = l.isEmpty := natcast_beq0 l.n
 
 /-- `HdrFlags.Set` (parse_headers.go) = the bookkeeping step of the model's ParseHeaders (`pflags ||| 1 <<< type`,
@@ -167,6 +177,26 @@ theorem hdrFlagsSet_tie (f t : UInt16) (ht : t.toNat < 16) :
 theorem hdrFlagsSet_wide (f t : UInt16) (ht : t.toNat ≥ 16) : Gen.F.HdrFlags_Set f t = f := by
   unfold Gen.F.HdrFlags_Set GoSem.shl16
   simp [ht]
+
+private theorem or_shift_wide (f t : Nat) (hf : f < 65536) (ht : t ≥ 16) : (f ||| (1 <<< t)) % 65536 = f := by
+  have h2 : (65536 : Nat) = 2 ^ 16 := by decide
+  rw [h2, Nat.or_mod_two_pow, Nat.mod_eq_of_lt (by omega : f < 2 ^ 16)]
+  have : (1 <<< t) % 2 ^ 16 = 0 := by
+    rw [Nat.one_shiftLeft]
+    obtain ⟨k, rfl⟩ : ∃ k, t = 16 + k := ⟨t - 16, by omega⟩
+    rw [Nat.pow_add]
+    exact Nat.mul_mod_right _ _
+  rw [this]; simp
+
+-- TIE: HdrFlags.Set
+/-- **`HdrFlags.Set` for EVERY flag word and EVERY 16-bit header type** = the expression the model's ParseHeaders uses
+    for its bookkeeping step (`(pflags ||| 1 <<< type) % 65536`, Model/Msg.lean `parseHeaders`; the same expression,
+    reduced mod 65536, is the `bit` of Model/Sig.lean `msgSigLoop`) -/
+theorem hdrFlagsSet_tie_all (f t : UInt16) :
+    (Gen.F.HdrFlags_Set f t).toNat = (f.toNat ||| (1 <<< t.toNat)) % 65536 := by
+  by_cases ht : t.toNat < 16
+  · exact hdrFlagsSet_tie f t ht
+  · rw [hdrFlagsSet_wide f t (by omega), or_shift_wide f.toNat t.toNat f.toNat_lt (by omega)]
 
 /-- `HdrFlags.Test` after `Set` of the same type (< 16) is true -/
 theorem hdrFlagsTest_after_set (f t : UInt16) (ht : t.toNat < 16) :
@@ -223,6 +253,7 @@ private theorem lt_nat (i n : Nat) : decide ((Int.ofNat i : Int) < Int.ofNat n) 
   · show (i : Int) < (n : Int)
     omega
 
+-- TIE: skipCRLF
 /-- **`skipCRLF` (parse_utils.go), the line-end recogniser under every parser of the library**: the translated source —
     with Go's index-out-of-range panic made explicit as `none` — never panics and returns exactly the model's triple
     (offset after the line end, its length, verdict), for every buffer and every start offset ≥ 0. -/
